@@ -5,14 +5,17 @@ A real `Beam` with a real `SingleRayAttenuator` is placed (translation + rotatio
 vf/mock_c04.py.  Everything is built in its final placement *before* the first density evaluation (the stale-cache
 defect of Beam._modified belongs to C01).  Monitors, all on Beam.density / SingleRayAttenuator.density / Beam.direction:
 
-  flux_nostop : all rates null / no ions: the cross-section integral equals P/(E m e)/v (CODATA-limited rtol 1e-7) and
-                is the same at every z (rtol 1e-11), for any divergence.
-  flux_atten  : cross-section integral = P/(E m e)/v * exp(-int_0^z S/v), S from the documented composite formula
-                evaluated by this module (own transform algebra, own constants, Gauss-Legendre panels, two orders must
-                agree); tolerance = computed bound of the documented discretisation (trapezoid on a grid of spacing
-                <= step + linear interpolation) * 10 + 1e-7.
+  flux_source : cross-section integral at z = 0 equals P/(E m e)/v (CODATA-limited rtol 1e-7; own constants).
+  flux_nostop : all rates null / no ions / zero ion density: flux(z)/flux(0) = 1 at 12 z (atol 1e-11), any divergence.
+  flux_atten  : flux(z)/flux(0) = exp(-int_0^z S/v), S from the documented composite formula evaluated by this module
+                (own transform algebra, own constants, Gauss-Legendre panels, two orders must agree); tolerance =
+                TOL_FACTOR (10) x a rigorous bound of the documented discretisation (trapezoid on a grid of spacing
+                <= step + linear interpolation of the line density) + 1e-7.  The documented scheme attains the bound,
+                so the margin of this monitor sits just below 1/TOL_FACTOR by construction.  Comparisons whose tolerance
+                exceeds a tenth of the attenuation reached at that z are judged too but counted as flux_atten_loose.
   envelope    : normalised second moments of the cross-section = sigma_x(z)^2, sigma_y(z)^2 (documented envelope,
-                truncated-Gaussian factor when clamping is on).
+                truncated-Gaussian factor when clamping is on).  Judged first: the quadrature nodes follow the documented
+                envelope, so when it fails the z-dependence of the flux is skipped for that case (not attributable).
   monotone    : on-axis density never increases along >= 65 sorted z.
   zero_z / zero_clamp : exact 0.0 before the source, beyond the length, outside the clamp ellipse.
   dir_unit / dir_stream : |d| = 1 and d_x/d_z = x sigma_x'/sigma_x, d_y/d_z = y sigma_y'/sigma_y (pointwise form of
@@ -48,6 +51,8 @@ ASSUMPTIONS = ["beam and plasma share one scene-graph root and are related by a 
                "stopping rates and ion densities are non-negative; neutrals (Z=0, documented n_eq undefined) have null rates",
                "profiles are smooth on the scale of the attenuator step (tolerance is computed from their derivatives)",
                "every scene is built in its final placement before the first density evaluation (history effects: C01)"]
+ASAN_MODULES = ["cherab.core.model.attenuator.singleray", "cherab.core.beam.node"]
+ASAN = dict(cases=300, workers=8, timecap=240)
 QUICK = dict(cases=220, workers=2, timecap=40)
 THOROUGH = dict(cases=22000, workers=16, timecap=600)
 TOL_FACTOR = 10.0   # safety factor on the rigorous discretisation bound (the bound itself is attained by the documented scheme)
